@@ -644,6 +644,50 @@ pub fn run(tier: Tier) {
         ctx.violation(f.key, f.what, f.case);
     }
     ctx.add_part(part);
+    // call histories on one thread: a reduction after other calls on a DIFFERENT pair (f, g) that looks alike
+    // (same degree, same squared norms: coefficients swapped, rotated, negated, reversed)
+    {
+        let mut part = Part::new("call_histories_with_lookalike_pairs", "n in {8, 64, 512, 1024}: on one fresh thread, first the Gram-Schmidt quantity of (f1, g1) (what key generation computes for every candidate) and a reduction modulo (f1, g1), then a reduction modulo (f2, g2) where f2 is f1 with two coefficients swapped / multiplied by X / negated / reversed (same degree and squared norms) and (F, G) = small + k (f2, g2): the second reduction is judged like any other (both versions equal, equation preserved, idempotent, multiple of (f2, g2))");
+        let mut found_any: Vec<Found> = vec![];
+        for &n in &[8usize, 64, 512, 1024] {
+            let Some(b1) = bases(n, 1).into_iter().next() else { continue };
+            let variants: Vec<(&str, V)> = vec![
+                ("two coefficients swapped", { let mut v = b1.f.clone(); v.swap(0, n / 2 + 1); v }),
+                ("multiplied by X", poly::shift_z(&b1.f, 1)),
+                ("negated", b1.f.iter().map(|x| -x).collect()),
+                ("reversed", b1.f.iter().rev().cloned().collect()),
+            ];
+            for (vname, f2) in variants {
+                let b2 = Base { f: f2.clone(), g: b1.g.clone(), cf: vec![], cg: vec![], origin: format!("f2 = f1 with {}", vname) };
+                let k: V = (0..n as i64).map(|i| if i % 3 == 0 { ((i * 7) % 11) - 5 } else { 0 }).collect();
+                let kf = poly::mul_z(&k, &b2.f);
+                let kg = poly::mul_z(&k, &b2.g);
+                let capf: V = (0..n).map(|i| ((i as i64 * 5) % 7 - 3) + kf[i] as i64).collect();
+                let capg: V = (0..n).map(|i| ((i as i64 * 3) % 5 - 2) + kg[i] as i64).collect();
+                let (f1i, g1i): (Vec<i16>, Vec<i16>) = (b1.f.iter().map(|&x| x as i16).collect(), b1.g.iter().map(|&x| x as i16).collect());
+                let b1c = Base { f: b1.f.clone(), g: b1.g.clone(), cf: vec![], cg: vec![], origin: String::new() };
+                let (cf1, cg1) = (b1.cf.clone(), b1.cg.clone());
+                let r = crate::sched::on_fresh_thread(move || {
+                    let _ = catch(|| falcon_rust::verif_hooks::gram_schmidt_norm_squared(&f1i, &g1i));
+                    let _ = judge(&b1c, &cf1, &cg1, false);
+                    judge(&b2, &capf, &capg, true).map(|_| ()).map_err(|e| (e.0, e.1, b2.origin.clone()))
+                });
+                part.states += 1;
+                part.transitions += 3;
+                part.validated += 1;
+                match r {
+                    Ok(Ok(())) => part.outcome("second reduction correct".to_string()),
+                    Ok(Err((class, what, origin))) => found_any.push(found(format!("babai:{}:after-lookalike-pair", class), format!("{} [after the Gram-Schmidt quantity and a reduction of another pair of the same degree and norms on the same thread; {}]", what, origin), json!({"kind":"babai-history","n":n}))),
+                    Err(e) => found_any.push(found("babai:panic:after-lookalike-pair".to_string(), format!("panic in the call history at n={}: {}", n, e), json!({"kind":"babai-history","n":n}))),
+                }
+            }
+        }
+        for f in found_any {
+            ctx.violation(f.key, f.what, f.case);
+        }
+        part.exhaustive = true;
+        ctx.add_part(part);
+    }
     let comp: Vec<(usize, (u64, Vec<Found>))> = ns.par_iter().map(|&n| (n, u32_ntt_component(n))).collect();
     let mut part = Part::new("u32_ntt_component", "the 30-bit NTT used by the multi-modular reduction, every n in {2,...,1024}: ntt(X) lists n distinct roots of X^n+1 mod p; ntt(c x^j) = c w_k^j and intt(ntt(c x^j)) = c x^j for all j and c in {+-1, +-2, +-2^20, 2^28-3} (negative c are residues next to the modulus); intt(ntt(+-x^j) .* ntt(f)) = +-x^j f for every j and two small dense f (one reduction step with a monomial multiplier); intermediate-state sparsity as in C11 (residues modulo X^m - zeta with each half-block zero or dense, m in {n/2, n/4, 8, 16})");
     for (n, (c, f)) in comp {
@@ -673,6 +717,9 @@ pub fn run(tier: Tier) {
 }
 
 pub fn replay(case: &Value) -> Result<Option<String>, String> {
+    if case.get("kind").and_then(|k| k.as_str()) == Some("babai-history") {
+        return Err("re-run ./vf check C17 (the call histories are enumerated deterministically)".into());
+    }
     if case.get("kind").and_then(|k| k.as_str()) == Some("u32ntt") {
         let n = case.get("n").and_then(|x| x.as_u64()).ok_or("n")? as usize;
         return Ok(u32_ntt_component(n).1.into_iter().chain(u32_sparsity(n).1).next().map(|f| f.what));
